@@ -102,7 +102,21 @@ def collect(pids):
         for m in getattr(mod, "MUTANTS", []):
             jobs.append((pid, m))
         jobs += [(pid, m) for m in seeded_mutants(pid)]
+        jobs += [(pid, m) for m in refactor_mutants(pid)]
     return jobs
+
+
+def refactor_mutants(pid):
+    """behaviour-preserving refactorings written by sub-agents for this property (kept under /verif/refactors, each confirmed by an equivalence program
+    and the unchanged test suite): the property's check must stay silent on every one of them"""
+    base = os.path.join(os.path.dirname(os.path.dirname(os.path.abspath(__file__))), "refactors")
+    out = []
+    if not os.path.isdir(base):
+        return out
+    for sid in sorted(os.listdir(base)):
+        if sid.startswith(pid) and os.path.exists(os.path.join(base, sid, "patch.diff")):
+            out.append(dict(name=f"twin: refactoring {sid} (independent sub-agent, behaviour-preserving)", expect="silent", patch=os.path.join(base, sid, "patch.diff")))
+    return out
 
 
 def seeded_mutants(pid):
